@@ -1652,10 +1652,13 @@ PROPERTY = Property(
         "these libraries raise nothing else is checked by the bytes stream (truncations, seeded mutations, NUL, invalid UTF-8, 1 MB lines), not proved",
         "Licensing.parse is the oracle parameter `parses` of the model (expression / None / ExpressionError|ParseError); the harness fills it "
         "from the real library for every string of a case; that it raises nothing else is exercised, not proved",
-        "the sandbox runs as root, so permission-denied reads cannot be provoked with chmod: an unreadable covered file is represented by a "
-        "file that vanishes between the directory walk (or argument validation) and the read — the same OSError path in "
-        "_MultiprocessingContainer.__call__ / the annotate loop; PermissionError on a configuration file is the model's `osError` input "
-        "(mapped to exit 2 by C16_exit) and is not exercised end to end",
+        "the sandbox runs as root, so permission-denied reads cannot be provoked with chmod alone: in the lint-family streams an unreadable covered "
+        "file is represented by a file that vanishes between the directory walk (or argument validation) and the read — the same OSError path in "
+        "_MultiprocessingContainer.__call__ / the annotate loop; for annotate (stream annotate-shapes) the kernel's own EACCES is obtained in a "
+        "child `python -m reuse` started through setpriv without CAP_DAC_OVERRIDE / CAP_DAC_READ_SEARCH (skipped where setpriv cannot drop them), "
+        "and in-process by fault injection at the n-th stat / lstat / access / open of the chosen path (os.stat, os.lstat, os.access, os.open, "
+        "builtins.open, io.open are wrapped; questions asked through os.scandir entries are not counted); PermissionError on a configuration file "
+        "is the model's `osError` input (mapped to exit 2 by C16_exit) and is not exercised end to end",
         "bdb.BdbQuit / KeyboardInterrupt (re-raised on purpose by _process_error for debugging) are outside the model's FileRes.exc",
         "project loading is claimed under the hypothesis that the files in LICENSES/ resolve to distinct identifiers (C16_*_partial); the "
         "excluded shape is a recorded known finding with a proved witness (C16_duplicate_license_witness)",
